@@ -886,11 +886,13 @@ func (u *c11Uni) refText(kind string, base string, depth int) string {
 		case 0:
 			return t + "#/components/" + c11KindColl[kind] + "/Nope"
 		case 3:
+			// deep fragments go through the path "/deep", which is never a $ref in a generated document: the typed drill
+			// follows resolved references (Value, assigned path items), which the fragment tables do not describe
 			if kind == "response" {
-				return t + "#/paths/~1x/get/responses/200"
+				return t + "#/paths/~1deep/get/responses/200"
 			}
-			if kind == "pathItem" || kind == "callback" {
-				return t + "#/paths/~1x/get/callbacks/cb1"
+			if kind == "callback" {
+				return t + "#/paths/~1deep/get/callbacks/cb1"
 			}
 		}
 		return t + "#/components/" + c11KindColl[kind] + "/" + hx.Pick(r, []string{"A", "B"})
@@ -989,6 +991,16 @@ func (u *c11Uni) docOrElem(view string, loc string, depth int) c11El {
 		if u.r.Chance(p) {
 			c11AddKid(e, s.slot, u.el(s.kind, loc, depth+1, pref))
 		}
+	}
+	if u.r.Chance(35) {
+		// an inline path item (its own sub-elements may be references): the target of deep fragments
+		pi := c11NewEl("pathItem", "")
+		for _, s := range c11Slots("pathItem") {
+			if u.r.Chance(60) {
+				c11AddKid(pi, s.slot, u.el(s.kind, loc, depth+2, pref))
+			}
+		}
+		c11AddKid(e, []string{"paths", "/deep"}, pi)
 	}
 	return e
 }
